@@ -9,6 +9,10 @@ Cases
 * stage cases exercise one element (or one function) on an arbitrary incoming context and file-system
   state: "mf" (MakeFilename.__call__), "wmf" (Write._make_filename), "winit", "write", "latex", "png",
   "gp" (group_plots), "uwg" (_update_with_group);
+  after the adversary round (notes/adversary_C19.md) also ONE element object on a flow of several values: "mfseq"
+  (MakeFilename with a static context), "renderflow" (RenderLaTeX, every value selects its template; several runs with
+  edits of the template files), "tocsv" (ToCSV with the options that travel in the value's context), "latexrun" with
+  arbitrary return codes (1, 127, -9, -15), "wmf" with absolute file names;
 * "hist" cases are *histories*: a list of steps executed in one fresh temporary directory, each step
   first deletes a set of files and then runs a newly built pipeline
 
@@ -17,7 +21,9 @@ Cases
                  RenderLaTeX, Write, LaTeXToPDF, PDFToPNG                                   (one combined plot)
 
   with the step's data ids, template id and option settings (modes of the two Writes, overwrite of the
-  two converters).
+  two converters).  A history may run with a RELATIVE output directory ("relative": the process works in the
+  temporary directory), its Sequence may carry a static context ("static": SetContext("name", ...); plots may have no
+  name of their own), and a plot's data id 1x means: histogram data x with context.output.duplicate_last_bin = False.
 
 Converters are stubs that record their invocation and embed what they read: in-process (a stand-in for
 `subprocess` inside the two lena modules; default) or real `sh` scripts reached through `create_command`
@@ -44,9 +50,9 @@ from harness.common import exc_name, jdump
 
 PID = "C19"
 TITLE = "Output files always match the current data and nothing unchanged is redone"
-LEAN_MODULES = ["LenaModel.Props.C19"]
-LEAN_SOURCES = ["LenaModel/Model/C19.lean", "LenaModel/Model/C19Spec.lean", "LenaModel/Lemmas/C19.lean",
-                "LenaModel/Props/C19.lean"]
+LEAN_MODULES = ["LenaModel.Props.C19", "LenaModel.Props.C19Ext"]
+LEAN_SOURCES = ["LenaModel/Model/C19.lean", "LenaModel/Model/C19Spec.lean", "LenaModel/Model/C19Ext.lean",
+                "LenaModel/Lemmas/C19.lean", "LenaModel/Props/C19.lean", "LenaModel/Props/C19Ext.lean"]
 DRIVER = "drivers/C19.lean"
 THEOREMS = [
     "Lena.C19.run_fresh_partial",
@@ -87,6 +93,17 @@ THEOREMS = [
     "Lena.C19.getTemplate_current",
     "Lena.C19.run_independent_of_previous_runs",
     "Lena.C19.object_history_eq_fresh",
+    # Props/C19Ext.lean (adversary round): one element object on several values, inputs that travel with a value
+    "Lena.C19.mfObjRun_eq_map",
+    "Lena.C19.mfObjRun_independent",
+    "Lena.C19.runSpecStatic_named",
+    "Lena.C19.renderRun_current",
+    "Lena.C19.toCsv_context_dup_precedence",
+    "Lena.C19.hist1dRows_length",
+    "Lena.C19.hist1dRows_dup",
+    "Lena.C19.latexHandle_rc_nonzero",
+    "Lena.C19.latexRun_yields_iff_rc_zero",
+    "Lena.C19.write_path_below_outdir",
 ]
 # true by unfolding, refinements between two Lean definitions, Boolean/Prop glue, helper lemmas: audited, not counted
 # as proof obligations of the property
@@ -113,6 +130,13 @@ AUX_THEOREMS = [
     "Lena.C19.membersCore_noop",
     "Lena.C19.latexCore_false_world",
     "Lena.C19.mfCall_filename_noop",
+    "Lena.C19.runSpecStatic_none",
+    "Lena.C19.getTemplateN_current",
+    "Lena.C19.toCsv_element_dup",
+    "Lena.C19.toCsvRun_pointwise",
+    "Lena.C19.schedOfRc_ok_iff",
+    "Lena.C19.normPath_rel",
+    "Lena.C19.pjoin_rel",
 ]
 CASE_TIMEOUT = 20
 
@@ -139,7 +163,8 @@ class _State:
     proc = False     # True: real subprocesses (sh stubs); False: in-process stand-in
     log = []         # in-process invocation log of the current run
     interrupt = 0    # > 0: the next `communicate()` of a stand-in process raises KeyboardInterrupt (Ctrl-C)
-    sched = {}       # tex path -> (ok, fin): whether the LaTeX command succeeds, after how many polls it is seen terminated
+    sched = {}       # tex path -> (rc, fin): the return code of the LaTeX command (0: it succeeds; True/False stand for
+                     # 0/1), after how many polls it is seen terminated
 
 
 def _stub_latex(tex, out):
@@ -158,20 +183,33 @@ def _stub_latex(tex, out):
 
 
 class _FakePopen(object):
-    """In-process stand-in for subprocess.Popen: the command runs to completion at launch."""
+    """In-process stand-in for subprocess.Popen: the command runs to completion at launch — in the working
+    directory it is given (`cwd`, as a real process would: relative paths of the command line are resolved there;
+    a working directory that does not exist makes Popen itself raise)."""
 
     def __init__(self, command, **kw):
         self.stdout = b""
         self.stderr = b""
         self.is_latex = command[0] in ("fakelatex", "pdflatex")
         tex = command[1] if command[0] == "fakelatex" else command[-1]
-        ok, fin = _State.sched.get(tex, (True, 0)) if self.is_latex else (True, 0)
+        rc, fin = _State.sched.get(tex, (0, 0)) if self.is_latex else (0, 0)
+        rc = {True: 0, False: 1}.get(rc, rc) if isinstance(rc, bool) else rc
         self.polls_left = fin
-        if ok:
-            self._rc = self._run(list(command))
-        else:
-            _State.log.append(["latex", tex])      # launched; the command fails and writes nothing
-            self._rc = 1
+        cwd = kw.get("cwd")
+        old = os.getcwd() if cwd else None
+        if cwd:
+            os.chdir(cwd)
+        try:
+            if rc == 0:
+                self._rc = self._run(list(command))
+            else:
+                # launched; the command fails (error exit, command not found, killed by a signal: negative code)
+                # and writes nothing
+                _State.log.append(["latex", tex])
+                self._rc = rc
+        finally:
+            if old is not None:
+                os.chdir(old)
         self.returncode = self._rc if fin == 0 else None
 
     def _run(self, c):
@@ -277,9 +315,16 @@ def _tmp_base():
 class _Env(object):
     """One temporary directory: <base>/out (output), <base>/tpl (templates), <base>/bin (sh stubs)."""
 
-    def __init__(self, proc=False):
+    def __init__(self, proc=False, relative=False):
         self.base = tempfile.mkdtemp(prefix="C19-h-", dir=_tmp_base())
         self.proc = proc
+        # relative: the process works IN the temporary directory and every path given to lena (output directory,
+        # template directory) is relative, as in the usual `Write("output")`
+        self.relative = relative
+        self.old_cwd = None
+        if relative:
+            self.old_cwd = os.getcwd()
+            os.chdir(self.base)
         self.tick = 0
         self.tpl_now = None      # (layout, template id) of the template file on disk
         self.tpl_edits = 0       # number of edits so far = its logical modification time
@@ -307,11 +352,14 @@ class _Env(object):
             else:
                 os.environ["STUBLOG"] = self.old_log
         _State.proc = False
+        if self.old_cwd is not None:
+            os.chdir(self.old_cwd)
         shutil.rmtree(self.base, ignore_errors=True)
 
     # -- paths ---------------------------------------------------------------------------
     def abs(self, rel):
-        return os.path.join(self.base, rel)
+        """the path given to lena for the file `rel` of the temporary directory"""
+        return rel if self.relative else os.path.join(self.base, rel)
 
     def rel(self, path):
         pre = self.base + os.sep
@@ -342,6 +390,9 @@ class _Env(object):
         m = re.fullmatch(r"0\.000000,(\d+)\.000000\n1\.000000,7\.000000\n2\.000000,7\.000000", text)
         if m:
             return {"csv": int(m.group(1))}
+        m = re.fullmatch(r"0\.000000,(\d+)\.000000\n1\.000000,7\.000000", text)
+        if m:
+            return {"csv": int(m.group(1)) + 10}     # written without the duplicated last bin (data ids 11, 12)
         m = re.fullmatch(r"TPL(\d+)((?: CSV:\S+)*) end", text)
         if m:
             return {"tex": int(m.group(1)), "deps": [self.rel(p) for p in re.findall(r"CSV:(\S+)", m.group(2))]}
@@ -434,7 +485,11 @@ class _Env(object):
 
 
 def csv_text(d):
-    """CSV text of histogram([0, 1, 2], bins=[d, 7]) as documented for ToCSV (duplicate_last_bin)"""
+    """CSV text of the plot with data id d as documented for ToCSV: histogram([0, 1, 2], bins=[d % 10, 7]); ids 1x
+    carry context.output.duplicate_last_bin = False ("takes precedence over this element's value"): the last bin
+    is not written twice"""
+    if d >= 10:
+        return "0.000000,%d.000000\n1.000000,7.000000" % (d % 10)
     return "0.000000,%d.000000\n1.000000,7.000000\n2.000000,7.000000" % d
 
 
@@ -511,21 +566,34 @@ def _pipeline(L, env, cfg, layout, verbose=False, default_cmd=False):
 
     def cc(tex, outname, outdir, ctx):
         return ["fakelatex", tex, outname]
-    tail = [o.RenderLaTeX("t.tex", template_dir=os.path.join(env.base, "tpl"), verbose=2 if v else 0),
+    tail = [o.RenderLaTeX("t.tex", template_dir=env.abs("tpl"), verbose=2 if v else 0),
             _write(L, out, cfg["w2"], v),
             o.LaTeXToPDF(overwrite=cfg["lo"], verbose=2 if v else 0, create_command=cc if default_cmd is False else None),
             o.PDFToPNG(overwrite=cfg["po"], verbose=v)]
     if layout in ("group", "scalars"):
         return L["core"].Sequence(L["flow"].MapGroup(o.ToCSV(), _mf(L, cfg["mf"]), _write(L, out, cfg["w1"], v)),
                                   _mf(L, cfg["gmf"]), *tail)
-    return L["core"].Sequence(o.ToCSV(), _mf(L, cfg["mf"]), _write(L, out, cfg["w1"], v), *tail)
+    head = []
+    if cfg.get("static") is not None:
+        # the Sequence carries a static context: MakeFilename formats with it where a value has no name of its own
+        import lena.meta
+        head = [lena.meta.SetContext("name", cfg["static"])]
+    return L["core"].Sequence(*(head + [o.ToCSV(), _mf(L, cfg["mf"]), _write(L, out, cfg["w1"], v)] + tail))
+
+
+def _names(rs):
+    """the names MakeFilename formats with: the plot's own, else the one of the static context"""
+    return [pl["name"] if pl["name"] is not None else rs.get("static") for pl in rs["plots"]]
 
 
 def _flow(L, layout, plots):
     vals = []
     for p in plots:
         ctx = {} if p["name"] is None else {"name": p["name"]}
-        vals.append((L["structures"].histogram([0, 1, 2], bins=[p["data"], 7]), ctx))
+        if p["data"] >= 10:
+            # data ids 1x: the plot's context asks for a CSV text without the duplicated last bin
+            ctx["output"] = {"duplicate_last_bin": False}
+        vals.append((L["structures"].histogram([0, 1, 2], bins=[p["data"] % 10, 7]), ctx))
     if layout == "group":
         return [L["flow"].group_plots(vals)]
     return vals          # separate plots; "scalars": plain values through the group pipeline
@@ -533,10 +601,11 @@ def _flow(L, layout, plots):
 
 def _run_hist(case):
     L = _lena()
-    env = _Env(proc=(case.get("stub") == "proc"))
     runs = []
     seq = None
+    env = None
     try:
+        env = _Env(proc=(case.get("stub") == "proc"), relative=bool(case.get("relative")))
         for st in case["steps"]:
             for r in st.get("del", []):
                 try:
@@ -566,7 +635,7 @@ def _run_hist(case):
             _State.sched = {}
             if st.get("interrupt") and not env.proc:
                 # commands that have not terminated when Ctrl-C arrives ("late"): seen terminated only after many polls
-                names = [pl["name"] for pl in rs["plots"]]
+                names = _names(rs)
                 texs = [_ref_group_base(rs, names) + ".tex"] if rs["layout"] == "group" else \
                     [_ref_base(rs, x) + ".tex" for x in names]
                 for t, late in zip(texs, st.get("late") or []):
@@ -595,7 +664,8 @@ def _run_hist(case):
                 run["pool"] = sum(pools)
             runs.append(run)
     finally:
-        env.close()
+        if env is not None:
+            env.close()
     return {"runs": runs}
 
 
@@ -661,6 +731,87 @@ def _run_stage(case):
         rctx = res[1]
         out = {k: rctx.get("output", {}).get(k) for k in OUT_KEYS}
         return {"out": out, "modified": res is not val}
+    if op == "mfseq":
+        # ONE MakeFilename object (with a static context, as in a Sequence with SetContext) names several values
+        try:
+            el = _mf(L, case["args"])
+        except Exception as e:
+            return {"e": exc_name(e), "phase": "init"}
+        if case.get("static") is not None:
+            el._set_context({"name": case["static"], "detector": "far"})
+        elif case.get("static_set"):
+            el._set_context({"detector": "far"})
+        outs = []
+        for x in case["vals"]:
+            ctx = {} if x["name"] is None else {"name": x["name"]}
+            o = {k: v for k, v in (x["out"] or {}).items() if v is not None}
+            if o:
+                ctx["output"] = o
+            val = ("data", ctx)
+            try:
+                res = el(val)
+            except Exception as e:
+                return {"e": exc_name(e), "phase": "call", "outs": outs}
+            outs.append({"out": {k: res[1].get("output", {}).get(k) for k in OUT_KEYS}, "modified": res is not val})
+        return {"outs": outs}
+    if op == "renderflow":
+        # ONE RenderLaTeX object, one or more runs; every value may select its template (context.output.template)
+        env = _Env()
+        try:
+            tdir = os.path.join(env.base, "tpl")
+            el = L["output"].RenderLaTeX(case["default"], template_dir=tdir)
+            runs = []
+            for r in case["runs"]:
+                for name, (t, m) in sorted(r["dir"].items()):
+                    path = os.path.join(tdir, name)
+                    with open(path, "w") as f:
+                        f.write("TPL%d CSV:\\VAR{output.filepath} end" % t)
+                    ts = (1500000000 + m) * 10 ** 9
+                    os.utime(path, ns=(ts, ts))
+                flow = []
+                for x in r["flow"]:
+                    o = {"filepath": env.abs(x["path"])}
+                    if x["ft"] is not None:
+                        o["filetype"] = x["ft"]
+                    if x["tpl"] is not None:
+                        o["template"] = x["tpl"]
+                    flow.append((env.abs(x["path"]), {"output": o}))
+                vals = []
+                try:
+                    for vin, vout in zip(flow, el.run(iter(list(flow)))):
+                        vals.append(None if vout is vin else env.dec(vout[0]) if isinstance(vout[0], str) else {"obj": 1})
+                except Exception as e:
+                    runs.append({"e": exc_name(e)})
+                    break
+                runs.append({"vals": vals})
+            return {"runs": runs}
+        finally:
+            env.close()
+    if op == "tocsv":
+        # ONE ToCSV object on a flow of one-dimensional histograms with their contexts
+        H = L["structures"].histogram
+        try:
+            el = L["output"].ToCSV(duplicate_last_bin=case["dup"], header=case["header"])
+            flow = []
+            for x in case["flow"]:
+                o = {}
+                if x["to_csv"] is not None:
+                    o["to_csv"] = x["to_csv"]
+                if x["ctx_dup"] is not None:
+                    o["duplicate_last_bin"] = x["ctx_dup"]
+                flow.append((H(list(x["edges"]), bins=list(x["bins"])), {"output": o} if o else {}))
+            outs = []
+            for vin, vout in zip(flow, el.run(iter(list(flow)))):
+                if vout is vin:
+                    outs.append(None)
+                    continue
+                data, ctx = vout
+                parsed = _parse_csv(data, case["header"]) if isinstance(data, str) else {"obj": type(data).__name__}
+                parsed["filetype"] = ctx.get("output", {}).get("filetype")
+                outs.append(parsed)
+            return {"outs": outs}
+        except Exception as e:
+            return {"e": exc_name(e)}
     if op == "wmf":
         try:
             w = L["output"].Write(case["outdir"], verbose=False)
@@ -798,7 +949,8 @@ def _run_stage(case):
             stamps = _world_setup(env, case["world"])
             flow = [(_data_of(env, x["data"]), _ctx_of_out(env, x["out"])) for x in case["vals"]]
             _State.log = []
-            _State.sched = {env.abs(x["data"]["path"]): (x["ok"], x["fin"]) for x in case["vals"] if "path" in x["data"]}
+            _State.sched = {env.abs(x["data"]["path"]): (x.get("rc", 0 if x["ok"] else 1), x["fin"])
+                            for x in case["vals"] if "path" in x["data"]}
             el = L["output"].LaTeXToPDF(overwrite=case["overwrite"], verbose=case["verbose"],
                                         create_command=lambda t, o, d, c: ["fakelatex", t, o])
             try:
@@ -845,6 +997,22 @@ def _run_stage(case):
         return {"files": _snapshot(env, stamps), "log": env.take_log(), "vals": vals}
     finally:
         env.close()
+
+
+def _parse_csv(text, header):
+    """CSV text of a one-dimensional histogram with integer edges and contents -> header line and rows of integers
+    (anything else: {"raw": text})"""
+    lines = text.split("\n")
+    head = None
+    if header and lines and lines[0] == header:
+        head, lines = header, lines[1:]
+    rows = []
+    for line in lines:
+        m = re.fullmatch(r"(-?\d+)\.000000,(-?\d+)\.000000", line)
+        if not m:
+            return {"raw": text}
+        rows.append([int(m.group(1)), int(m.group(2))])
+    return {"header": head, "rows": rows}
 
 
 def run_impl(case):
@@ -978,6 +1146,17 @@ def compare(case, res, replies):
             return f"impl raised {res}"
         a, b = _norm_out(res["out"]), _norm_out(m["out"])
         return None if a == b else f"impl {a} vs model {b}"
+    if op == "mfseq":
+        if "e" in res or "e" in m:
+            return None if (res.get("e"), res.get("phase")) == (m.get("e"), m.get("phase")) else f"impl {res} vs model {m}"
+        a = [{"out": _norm_out(x["out"]), "modified": x["modified"]} for x in res["outs"]]
+        b = [{"out": _norm_out(x["out"]), "modified": x["modified"]} for x in m["outs"]]
+        return None if a == b else f"impl {a} vs model {b}"
+    if op == "tocsv":
+        if "e" in res:
+            return f"impl raised {res}"
+        a = [None if x is None else {k: v for k, v in x.items() if k != "filetype"} for x in res["outs"]]
+        return None if a == m.get("outs") else f"impl {a} vs model {m}"
     a = {k: v for k, v in res.items() if k != "msg"}
     return None if a == m else f"impl {a} vs model {m}"
 
@@ -1073,7 +1252,18 @@ def _oracle_stage(case, res):
             fe = o.get("filetype") if o.get("filetype") is not None else "txt"
         fn = "output" if fn is None else fn
         if dn.startswith("/") or fn.startswith("/"):
-            return None      # absolute names: a warning is documented, nothing else is stated
+            # absolute names: "dirname is always relative to self.output_directory", a warning is documented.  Stated
+            # here: the name is refused (an exception), or the file stays below the output directory at
+            # output_directory/dirname/filename.fileext with the leading separator(s) dropped — never elsewhere
+            if "e" in res:
+                return None
+            fp = fn + ("." + fe if fe else "")
+            refs = {_join(case["outdir"], dn[1:] if dn.startswith("/") else dn, fp[1:] if fp.startswith("/") else fp),
+                    _join(case["outdir"], dn.lstrip("/"), fp.lstrip("/"))}
+            if res["r"][3] not in refs:
+                return (f"Write._make_filename({o}) in output directory {case['outdir']!r} = {res['r']}: the file is not "
+                        f"below the output directory at {sorted(refs)}")
+            return None
         if "e" in res:
             return f"Write._make_filename({o}) raised {res}"
         ref = _join(case["outdir"], dn, fn + ("." + fe if fe else ""))
@@ -1094,6 +1284,66 @@ def _oracle_stage(case, res):
         want = {"tex": case["tpl"], "deps": [p for p in deps if p is not None]}
         if v["data"] != {"text": want} or v["out"]["filetype"] != "tex" or v["out"]["fileext"] != "tex":
             return f"RenderLaTeX: rendered {v['data']} / {v['out']}, the template and context give {want}"
+        return None
+    if op == "mfseq":
+        a = case["args"]
+        bad = (a["filename"] is not None and (a["prefix"] is not None or a["suffix"] is not None)) or all(
+            a[k] is None for k in ("filename", "dirname", "fileext", "prefix", "suffix"))
+        if bad:
+            return None if res.get("e") == "LenaTypeError" else f"MakeFilename({a}) must raise LenaTypeError, got {res}"
+        if "e" in res:
+            return f"MakeFilename({a}) raised {res}"
+        # every value is named from its own context and the static context — whatever the same object named before
+        for i, (x, r) in enumerate(zip(case["vals"], res["outs"])):
+            ref = _ref_make_filename(a, x["name"] if x["name"] is not None else case.get("static"), x["out"])
+            if _norm_out(r["out"]) != ref:
+                return (f"MakeFilename({a}) with static name {case.get('static')!r}, value {i} of {case['vals']}: got "
+                        f"{_norm_out(r['out'])}, the naming rules (its own context, then the static one) give {ref}")
+        return None
+    if op == "renderflow":
+        # every selected (csv) value is rendered from the template it names (context.output.template, else the
+        # element's), as that file is now; other values pass unchanged.  (Every edit of the generated cases changes
+        # the modification time.)
+        for i, (r, got) in enumerate(zip(case["runs"], res["runs"])):
+            sel = [x for x in r["flow"] if x["ft"] == "csv"]
+            if any(not (x["tpl"] or case["default"]) for x in sel):
+                if got.get("e") != "LenaRuntimeError":
+                    return f"RenderLaTeX without any template for a value: expected LenaRuntimeError, got {got}"
+                return None
+            if "e" in got:
+                return f"RenderLaTeX raised {got} in run {i}"
+            for j, (x, v) in enumerate(zip(r["flow"], got["vals"])):
+                if x["ft"] != "csv":
+                    if v is not None:
+                        return f"RenderLaTeX changed value {j} of run {i}, which is not csv: {v}"
+                    continue
+                name = x["tpl"] or case["default"]
+                want = {"tex": r["dir"][name][0], "deps": [x["path"]]}
+                if v != want:
+                    return (f"RenderLaTeX run {i}, value {j} (template {name!r}, files {r['dir']}): rendered {v}, "
+                            f"its template gives {want}")
+        if len(res["runs"]) != len(case["runs"]):
+            return f"RenderLaTeX: {len(res['runs'])} runs completed of {len(case['runs'])}"
+        return None
+    if op == "tocsv":
+        if "e" in res:
+            return f"ToCSV raised {res}"
+        for i, (x, got) in enumerate(zip(case["flow"], res["outs"])):
+            if x["to_csv"] is False:
+                if got is not None:
+                    return f"ToCSV converted value {i} although context.output.to_csv is False"
+                continue
+            dup = x["ctx_dup"] if x["ctx_dup"] is not None else case["dup"]
+            rows = [[e, b] for e, b in zip(x["edges"][:-1], x["bins"])]
+            if dup:
+                rows.append([x["edges"][-1], x["bins"][-1]])
+            want = {"header": case["header"] or None, "rows": rows, "filetype": "csv"}
+            if got != want:
+                return (f"ToCSV(duplicate_last_bin={case['dup']}, header={case['header']!r}) value {i} "
+                        f"(context duplicate_last_bin={x['ctx_dup']!r}, histogram {x['edges']}/{x['bins']}): "
+                        f"got {got}, the data and its context give {want}")
+        if len(res["outs"]) != len(case["flow"]):
+            return f"ToCSV yielded {len(res['outs'])} values for {len(case['flow'])}"
         return None
     if op == "render2":
         if "e" in res:
@@ -1130,7 +1380,7 @@ def _oracle_stage(case, res):
             # and whenever it terminated
             if launched and not x["ok"] and n:
                 return (f"LaTeXToPDF(verbose={case['verbose']}) yielded {pdf} although its conversion failed "
-                        f"(return code 1, seen after {x['fin']} polls); file on disk: {files.get(pdf)}")
+                        f"(return code {x.get('rc', 1)}, seen after {x['fin']} polls); file on disk: {files.get(pdf)}")
             if n and pdf not in files:
                 return f"LaTeXToPDF yielded {pdf}, which does not exist"
             if launched and x["ok"] and tex in files and n != 1:
@@ -1360,7 +1610,7 @@ def hist_failures(case, res, facts=None):
         if st.get("interrupt") and run.get("pool"):
             fails.append(("violation", f"{tag}: after an interrupted run the pool of LaTeXToPDF still holds "
                           f"{run['pool']} processes (they would be yielded by the next run)"))
-        names = [pl["name"] for pl in rs["plots"]]
+        names = _names(rs)
         if st.get("interrupt") and any(st.get("late") or []):
             # Ctrl-C is not one of the faults the property quantifies over (it speaks of removed files): a command that
             # had not terminated leaves its pdf without a new image.  Checked here: the pool is empty afterwards (above),
@@ -1392,15 +1642,15 @@ def hist_failures(case, res, facts=None):
         units = _units(rs, run)
         data_of = {}
         if rs["layout"] == "group":
-            want_csvs = [_ref_base(rs, pl["name"]) + ".csv" for pl in rs["plots"]]
+            want_csvs = [_ref_base(rs, n) + ".csv" for n in names]
             for u in units:
                 if u["csvs"] != want_csvs:
                     fails.append(("violation", f"{tag}: the group names the member files {u['csvs']}, the naming rules give {want_csvs}"))
                 for p, pl in zip(u["csvs"], rs["plots"]):
                     data_of[p] = pl["data"]
         else:
-            for pl in rs["plots"]:
-                data_of[_ref_base(rs, pl["name"]) + ".csv"] = pl["data"]
+            for pl, n in zip(rs["plots"], names):
+                data_of[_ref_base(rs, n) + ".csv"] = pl["data"]
         new_tainted = set()
         ow_any = rs["w1"] == "ow" or rs["w2"] == "ow" or rs["lo"] or rs["po"]
         run_facts = []
@@ -1554,7 +1804,8 @@ def nontrivial(case, res):
         return True
     if "files" in res:
         return any(f["w"] for f in res["files"].values()) or bool(res.get("log"))
-    return case["op"] in ("mf", "wmf", "wdir", "uwg", "mgmulti", "render", "render2", "seltpl") and bool(res)
+    return case["op"] in ("mf", "wmf", "wdir", "uwg", "mgmulti", "render", "render2", "seltpl", "mfseq", "renderflow",
+                          "tocsv") and bool(res)
 
 
 def classify(case, res):
@@ -1570,6 +1821,13 @@ def classify(case, res):
     if any(st.get("rmdir") for st in case["steps"]):
         labels.append("output directory removed")
     labels.append("pipeline objects:" + ("one object re-used for all runs" if case.get("reuse") else "new for every run"))
+    labels.append("output directory:" + ("relative" if case.get("relative") else "absolute"))
+    if any(r.get("static") is not None for r in runs):
+        labels.append("Sequence with a static context")
+    if any(pl["name"] is None for r in runs for pl in r["plots"]):
+        labels.append("plots without a name")
+    if any(pl["data"] >= 10 for r in runs for pl in r["plots"]):
+        labels.append("context.output.duplicate_last_bin=False")
     for r in runs[1:]:
         labels.append(f"write modes (csv/tex):{r['w1']}/{r['w2']}")
         labels.append(f"converter overwrite (latex/png):{int(r['lo'])}/{int(r['po'])}")
@@ -1675,7 +1933,7 @@ def _stage_cases():
                                     cases.append({"op": "mf", "args": args, "name": name, "out": o})
     # Write._make_filename
     for outdir in ("out", "", "out/", "a/b"):
-        for fn in (None, "", "f", "d/f"):
+        for fn in (None, "", "f", "d/f", "/f", "/d/f", "//f"):
             for fe in (None, "", "e"):
                 for ft in (None, "t"):
                     for dn in (None, "", "d", "d/e", "/d", "//d"):
@@ -1759,7 +2017,9 @@ def _stage_cases():
                             fs.append({"p": f"{OUT}/q{i}.tex", "c": tex_of(i), "m": 3})
                             if pre == "old pdfs" and i % 2 == 0:
                                 fs.append({"p": f"{OUT}/q{i}.pdf", "c": {"pdf": [{"tex": 2, "deps": []}, []]}, "m": 2})
-                            vals.append({"data": {"path": f"{OUT}/q{i}.tex"}, "ok": oks[i], "fin": fins[i],
+                            # a failing command: error exit (1), command not found (127), killed by a signal (-9, -15)
+                            rc = 0 if oks[i] else (1, -9, 127, -15)[(i + fins[i] + verbose + len(cases)) % 4]
+                            vals.append({"data": {"path": f"{OUT}/q{i}.tex"}, "ok": oks[i], "rc": rc, "fin": fins[i],
                                          "out": {"filetype": "tex", "fileext": "tex", "filename": "q%d" % i,
                                                  "changed": True if i != 1 else (False if pre == "old pdfs" else None)}})
                         cases.append({"op": "latexrun", "overwrite": False, "verbose": verbose,
@@ -1844,6 +2104,53 @@ def _stage_cases():
                                 "filepath": "out/p.csv" if same_name else "out/p%d.csv" % i} for i, m in enumerate(ms)]
                         cases.append({"op": "uwg", "ctx": {"changed": c}, "new": new,
                                       "old": {"changed": oldc, "filetype": "csv" if oldc else None}})
+    # ONE MakeFilename object names several values, with and without a static context (a Sequence with SetContext)
+    seq_vals = [{"name": None, "out": {}}, {"name": "n", "out": {}}, {"name": "m", "out": {}},
+                {"name": None, "out": {"filename": "old"}}, {"name": "n", "out": {"prefix": "P_"}}]
+    seq_args = [dict(STD_MF), dict(STD_MF, filename=["a_", None]), dict(STD_MF, filename=None, prefix=[None, "-"]),
+                dict(STD_MF, dirname=["d/", None]), dict(STD_MF, overwrite=True),
+                dict(STD_MF, filename=None, suffix=["_", None], fileext=["e"])]
+    for args in seq_args:
+        for static, static_set in ((None, False), (None, True), ("s", True)):
+            for n in (2, 3):
+                for vs in itertools.product(seq_vals, repeat=n):
+                    if n == 3 and (vs[0] is vs[1] or vs[1] is vs[2]):
+                        continue
+                    cases.append({"op": "mfseq", "args": args, "static": static, "static_set": static_set,
+                                  "vals": [dict(v) for v in vs]})
+    # ONE RenderLaTeX object on flows of values that select their templates one by one; a second run after edits
+    # of the template files (every edit changes the modification time)
+    rvals = [{"ft": "csv", "tpl": None}, {"ft": "csv", "tpl": "alt.tex"}, {"ft": "csv", "tpl": "t.tex"},
+             {"ft": "csv", "tpl": ""}, {"ft": "tex", "tpl": None}, {"ft": None, "tpl": "alt.tex"}]
+    dir1 = {"t.tex": [1, 1], "alt.tex": [2, 1]}
+    dirs2 = [dir1, {"t.tex": [3, 2], "alt.tex": [2, 1]}, {"t.tex": [1, 1], "alt.tex": [4, 2]}, {"t.tex": [2, 2], "alt.tex": [1, 2]}]
+
+    def rflow(vs):
+        return [dict(v, path=f"{OUT}/f{i}.csv") for i, v in enumerate(vs)]
+    for default in ("t.tex", ""):
+        for n in (1, 2, 3):
+            for vs in itertools.product(rvals, repeat=n):
+                if n == 3 and default == "" and vs[0]["tpl"] is None:
+                    continue
+                cases.append({"op": "renderflow", "default": default, "runs": [{"dir": dir1, "flow": rflow(vs)}]})
+    for d2 in dirs2:
+        for vs1 in itertools.product(rvals[:3], repeat=2):
+            for vs2 in itertools.product(rvals[:3], repeat=2):
+                cases.append({"op": "renderflow", "default": "t.tex",
+                              "runs": [{"dir": dir1, "flow": rflow(vs1)}, {"dir": d2, "flow": rflow(vs2)}]})
+    # ONE ToCSV object on flows of one-dimensional histograms: the element's duplicate_last_bin and header, the
+    # value's context.output.duplicate_last_bin (absent, True, False) and context.output.to_csv
+    hists = [([0, 1, 2], [5, 7]), ([0, 2], [3]), ([-1, 0, 1, 3], [0, -2, 9])]
+    cvals = [{"to_csv": tc, "ctx_dup": cd, "edges": e, "bins": b}
+             for tc in (None, False, True) for cd in (None, True, False) for e, b in hists]
+    for dup in (True, False):
+        for header in (None, "x,y", ""):
+            for v in cvals:
+                cases.append({"op": "tocsv", "dup": dup, "header": header, "flow": [v]})
+        pair = [v for v in cvals if v["to_csv"] is not True and v["edges"] != [0, 2]]
+        for v1 in pair:
+            for v2 in pair:
+                cases.append({"op": "tocsv", "dup": dup, "header": None, "flow": [v1, v2]})
     return cases
 
 
@@ -1859,7 +2166,7 @@ def _mark_known_witnesses(cases, limit=25):
 def _reusable(case):
     """all runs of the history can be served by one pipeline object: same options, layout and file names"""
     runs = [st["run"] for st in case["steps"] if "run" in st]
-    key = lambda r: jdump({k: r[k] for k in ("outdir", "w1", "w2", "lo", "po", "mf", "gmf", "layout")})
+    key = lambda r: jdump({k: r.get(k) for k in ("outdir", "w1", "w2", "lo", "po", "mf", "gmf", "layout", "static")})
     return len(runs) >= 2 and all(key(r) == key(runs[0]) for r in runs)
 
 
@@ -1870,8 +2177,12 @@ def _random_history(rng, max_runs=4, max_plots=3, const_cfg=False):
     steps = []
     datas = [1] * n
     tpl = 1
+    dupctx = rng.random() < 0.25
     for i in range(rng.randint(2, max_runs)):
-        datas = [d if rng.random() < 0.55 else 3 - d for d in datas]
+        datas = [d if rng.random() < 0.55 else 3 - d % 10 for d in datas]
+        if dupctx:
+            # the option context.output.duplicate_last_bin = False comes and goes (data ids 1x)
+            datas = [d % 10 + (10 if rng.random() < 0.3 else 0) for d in datas]
         tpl = tpl if rng.random() < 0.6 else 3 - tpl
         dels = [] if i == 0 else [f for f in files if rng.random() < rng.choice([0.0, 0.15, 0.4])]
         r = rng.random()
@@ -1976,6 +2287,33 @@ def _base_histories(ctx):
         for datas in itertools.product((1, 2), repeat=n):
             for tpl in (1, 2):
                 yield {"op": "hist", "steps": [f0, _run_step(cfg, layout, tpl, list(datas))]}
+    # plots without a name of their own, with and without a static context of the Sequence (SetContext): an unnamed
+    # plot is named from the static context, else by Write's default — never from the plot before it
+    for names, static in ((["p0", None], None), (["p0", None], "s"), ([None], "s"), ([None, "p1"], "s"),
+                          (["p0", None, "p2"], "s")):
+        cfg = dict(_cfg(), static=static)
+        eff = [x if x is not None else static for x in names]
+        files = [f"{_ref_base(cfg, x)}.{k}" for x in eff for k in KINDS]
+        f0 = _run_step(cfg, "separate", 1, [1] * len(names), names=names)
+        f0["run"]["plots"] = [{"name": x, "data": 1} for x in names]
+        for datas in itertools.product((1, 2), repeat=len(names)):
+            if len(names) == 3 and datas[0] != datas[2]:
+                continue
+            for tpl in (1, 2):
+                for dels in [[]] + [[f] for f in files[:8:3]]:
+                    st = _run_step(cfg, "separate", tpl, list(datas), dels, names=names)
+                    st["run"]["plots"] = [{"name": x, "data": d} for x, d in zip(names, datas)]
+                    yield {"op": "hist", "steps": [f0, st]}
+    # options that travel with a plot: context.output.duplicate_last_bin = False (data ids 11, 12: the CSV text has no
+    # duplicated last bin); changing the option is a change of the data
+    for layout, n in (("separate", 1), ("group", 2)):
+        files = _unit_files(layout, n)
+        for d0 in (1, 11):
+            for d1 in (1, 11, 12):
+                for tpl in (1, 2):
+                    for dels in [[]] + [[f] for f in files[:4]]:
+                        yield {"op": "hist", "steps": [_run_step(_cfg(), layout, 1, [d0] + [1] * (n - 1)),
+                                                       _run_step(_cfg(), layout, tpl, [d1] + [2] * (n - 1), dels)]}
     if INNER_EXTENSION_CASES:
         for cfg in (_cfg(mf=dict(STD_MF, dirname=["a.tex.d"])), _cfg(mf=dict(STD_MF, filename=["x.pdf_", None]))):
             for pdflatex in (True, False):
@@ -2007,6 +2345,17 @@ def _base_histories(ctx):
             yield _random_history(rng, const_cfg=True)
 
 
+def _own_files(case):
+    """every plot of every run has a file name of its own (plots sharing one name write the same files: with real,
+    concurrent converter processes the result depends on their timing, which the model does not describe)"""
+    for st in case["steps"]:
+        if "run" in st and st["run"]["layout"] != "group":
+            names = _names(st["run"])
+            if len(set(names)) < len(names):
+                return False
+    return True
+
+
 def _gen(ctx):
     rng = ctx.rng
     thorough = ctx.tier == "thorough"
@@ -2024,12 +2373,20 @@ def _gen(ctx):
                 twin["verbose"] = True      # the elements' messages (printed to a null device)
             yield twin
         # real subprocesses as converters on a sample; the default command of LaTeXToPDF (a stub `pdflatex`)
-        if n % (900 if thorough else 140) == 0:
+        if n % (900 if thorough else 140) == 0 and _own_files(c):
             yield dict(c, stub="proc")
-        if n % (900 if thorough else 140) == 70:
+        if n % (900 if thorough else 140) == 70 and _own_files(c):
             yield dict(c, stub="proc", pdflatex=True)
         if n % (37 if thorough else 23) == 0:
             yield dict(c, pdflatex=True)
+        # a RELATIVE output directory (the usual Write("output")): the process works in the temporary directory;
+        # in-process and real converters, the default pdflatex command
+        if n % (29 if thorough else 7) == 3:
+            yield dict(c, relative=True)
+        if n % (900 if thorough else 140) == 35 and _own_files(c):
+            yield dict(c, relative=True, stub="proc")
+        if n % (97 if thorough else 46) == 5:
+            yield dict(c, relative=True, pdflatex=True)
 
 
 def gen_cases(ctx):
@@ -2079,6 +2436,10 @@ def _shrink_candidates(case):
         yield {k: v for k, v in case.items() if k != "verbose"}
     if case.get("reuse"):
         yield {k: v for k, v in case.items() if k != "reuse"}
+    if case.get("relative"):
+        yield {k: v for k, v in case.items() if k != "relative"}
+    if case.get("pdflatex"):
+        yield {k: v for k, v in case.items() if k != "pdflatex"}
     for i in range(len(steps)):
         if len(steps) > 1:
             yield dict(case, steps=steps[:i] + steps[i + 1:])
@@ -2128,7 +2489,10 @@ TRUSTED = [
 ]
 ASSUMPTIONS = [
     "converters are deterministic functions of the text of the file they are given and of the files that text names; a "
-    "LaTeX command either succeeds (writes the pdf, return code 0) or fails (writes nothing, return code 1); the pdf is "
+    "LaTeX command either succeeds (writes the pdf, return code 0) or fails (writes nothing; ANY non-zero return code: "
+    "1, 127, and the negative codes -9 / -15 of a process killed by a signal — rcFailed, schedOfRc); a converter "
+    "process resolves the paths of its command line in the working directory it is started in (the in-process stand-in "
+    "honours Popen's cwd as a real process does); the pdf is "
     "written at launch, and when a process is seen terminated is decided by the schedule of the case (latexRun / "
     "popReturned model the pool; latexHandle_failed, latexRun_yields_iff_ok).  Whole-pipeline histories and the "
     "freshness theorems assume commands that succeed",
@@ -2165,14 +2529,36 @@ ASSUMPTIONS = [
     "modification time (jinja2 re-uses a cached template iff the time is the same; the harness sets it explicitly; the "
     "render2 cases compare the stale-cache branch with the real RenderLaTeX)",
     "ToCSV and jinja2 are functions of their input: csvOf(data), texOf(template, paths of the csv files); the csv text "
-    "is checked against an independent formula for 1-dim integer histograms with default ToCSV options only (2-dim "
-    "histograms, rows(), separators, duplicate_last_bin are C-other territory); select_template callables, "
-    "select_data, from_data and user environments of RenderLaTeX are not modelled (context.output.template is)",
-    "contexts: only context.output (eight keys + write) and the key `name` are modelled; file-name and output-directory "
-    "templates are literals and {{name}}; non-bool values of output.changed are outside",
-    "state kept by elements between runs: the jinja2 template cache of RenderLaTeX (PipeState, getTemplate, runObject; "
-    "run_independent_of_previous_runs) and the process pool of LaTeXToPDF (empty after a completed or interrupted run); "
-    "ToCSV, MakeFilename, Write, PDFToPNG, MapGroup keep none",
+    "is checked against an independent formula for 1-dim integer histograms: the element's duplicate_last_bin and "
+    "header, context.output.duplicate_last_bin (absent / True / False: `takes precedence over this element's value`) "
+    "and context.output.to_csv (tocsv cases, toCsvHist; in histories a plot with data id 1x carries "
+    "duplicate_last_bin=False and its csv file must hold the text without the duplicated bin); 2-dim histograms, "
+    "rows(), separators, row_end stay C12 territory; select_template callables, select_data, from_data and user "
+    "environments of RenderLaTeX are not modelled; context.output.template is, per value of a flow (renderflow cases, "
+    "renderRun: every value is rendered from the template IT names)",
+    "contexts: only context.output (eight keys + write, template, to_csv, duplicate_last_bin) and the key `name` are "
+    "modelled; file-name and output-directory templates are literals and {{name}}; non-bool values of output.changed "
+    "are outside.  STATIC CONTEXT: a Sequence with SetContext gives MakeFilename a static context; modelled for the key "
+    "`name` (fullName: the value's own name, else the static one); separate plots only (for a group the name of the "
+    "group value is the intersection of the members' run-time contexts: runSpecStatic is outsideModel there)",
+    "ABSOLUTE NAMES: for an absolute output.dirname / output.filename Write documents a warning and `dirname is always "
+    "relative to self.output_directory`; the oracle accepts a refusal (exception) or the path below the output "
+    "directory with the leading separator(s) dropped, and nothing else (write_path_below_outdir: for all names the "
+    "path is the output directory followed by relative parts).  Histories with absolute names are not run on the "
+    "file system (a broken normalisation would write into the root directory of the machine); Write._make_filename "
+    "is exercised on them as a function",
+    "OUTPUT DIRECTORY: absolute or relative (the process then works in the temporary directory); the model speaks of "
+    "paths relative to the temporary directory in both cases",
+    "ADVERSARY ROUND (notes/adversary_C19.md): all six candidates were judged inside the statement and its "
+    "quantifier (a name taken from another value / a file outside the output directory / a pdf not generated / a "
+    "tex or csv file that does not hold `exactly the content produced from the current data` and its own context / "
+    "a yielded pdf that does not exist)",
+    "state kept by elements between runs AND between the values of one run: the jinja2 template cache of RenderLaTeX "
+    "(PipeState, getTemplate, runObject; run_independent_of_previous_runs; per template name: EnvState, getTemplateN, "
+    "renderRun_current) and the process pool of LaTeXToPDF (empty after a completed or interrupted run); MakeFilename "
+    "has its static context, which a call must leave as it is (mfObjCall returns the object unchanged: the code "
+    "deep-copies it; mfObjRun_eq_map; mfseq cases and histories with unnamed plots); ToCSV, Write, PDFToPNG, MapGroup "
+    "keep none",
     "theorems about freshness assume SourceClosed (every existing pdf has its tex and csv files on disk at the start of "
     "a run); without it the statement is false for the code as it is (history_fresh_full_fails = the known finding)",
 ]
@@ -2183,7 +2569,13 @@ RULE = ("stage cases (exhaustive small scopes): MakeFilename arguments x name x 
         "static contexts, RenderLaTeX with/without context.output.template, MapGroup with 1-3 results per member, "
         "LaTeXToPDF.run on flows of 2-3 values with per-launch schedules (command succeeds / fails with "
         "return code 1, seen terminated after 0, 1 or many polls) x verbose 0,1,2 x existing pdfs, one RenderLaTeX object over all sequences of 2-3 states (content, mtime) of the template file, "
-        "group_plots and _update_with_group over {unset, True, False}^(1..3).  Histories: one plot, first "
+        "group_plots and _update_with_group over {unset, True, False}^(1..3); ONE MakeFilename object (6 argument sets x no / "
+        "empty / named static context) naming flows of 2-3 values (named, unnamed, with existing name or prefix); ONE "
+        "RenderLaTeX object on flows of 1-3 values that select their template through context.output.template "
+        "(absent, other file, same file, empty) or are not selected, and two runs with the template files edited in "
+        "between; ONE ToCSV object (duplicate_last_bin x header) on flows of 1-2 histograms x context "
+        "duplicate_last_bin {absent, True, False} x to_csv; Write._make_filename also with absolute file names; "
+        "LaTeXToPDF flows with return codes 1, 127, -9, -15.  Histories: one plot, first "
         "run then EVERY step of the alphabet data{keep,change} x template{keep,change} x deletion of any subset of "
         "csv/tex/pdf/png (64), the same with all 36 option settings; a group of two plots with every step of its "
         "256-step alphabet; groups of 1 and 3, 2 and 3 separate plots and seven naming variants with single deletions; "
@@ -2196,15 +2588,22 @@ RULE = ("stage cases (exhaustive small scopes): MakeFilename arguments x name x 
         "runs, Ctrl-C during LaTeXToPDF's wait with commands that have not terminated (all late/early patterns) followed "
         "by another run of the same or a new object, MakeFilename(overwrite=True), the default "
         "pdflatex command (stub binary); real sh-script converters on a "
-        "sample.  Non-trivial: a history of at least two completed runs.")
+        "sample; every 7th history also with a RELATIVE output directory (the process works in the temporary "
+        "directory; in-process stand-in that honours Popen's cwd, real processes and the default pdflatex command on "
+        "samples); plots without a name with and without a static context of the Sequence (SetContext); plots whose "
+        "context carries duplicate_last_bin=False (explicit two-run histories and a quarter of the random ones).  "
+        "Non-trivial: a history of at least two completed runs.")
 LEVEL_TEXT = ("Lean 4 theorems about a transcribed model of the output pipeline over an abstract file system, for all "
               "converters, pre-states satisfying the stated invariant, data, templates, numbers of plots and option "
               "settings (unbounded): freshness of all files after a run and along histories under SourceClosed "
               "(run_fresh_partial, history_fresh_partial, group_fresh_partial), the proved negation of the unrestricted "
               "statement on the concrete witness (history_fresh_full_fails: a genuine defect that the unedited test-suite "
               "pins, listed as a known finding), idle runs are no-ops, output.changed is sticky, MakeFilename/Write naming "
-              "rules, the LaTeXToPDF pool with failing / late commands, re-used pipeline objects; 38 theorems carry the "
-              "property, 22 more are audited as auxiliary (refinements between Lean definitions, glue); tied to /repo "
+              "rules, the LaTeXToPDF pool with failing / late commands (any non-zero return code), re-used pipeline objects, "
+              "one element object on flows of several values (MakeFilename with a static context, RenderLaTeX with "
+              "per-value templates, ToCSV with per-value options), Write paths below the output directory for all "
+              "names; 48 theorems carry the "
+              "property, 29 more are audited as auxiliary (refinements between Lean definitions, glue); tied to /repo "
               "by a correspondence check that compares file-system snapshots, converter logs and "
               "yielded contexts of whole histories, plus a direct freshness/no-redo oracle on the real code.")
 LEVEL_NOTE = ("Hypotheses of the freshness theorems that are not derived: plots have files of their own (UnitsOK), "
